@@ -38,6 +38,7 @@ static const char * hx_cur_tag = "";
 static const uint8_t * hx_cur_desc;
 static size_t hx_cur_len;
 static int hx_replay_failed;
+static unsigned long hx_viol_calls;	/* violations recorded by this process (a case can ask whether it already failed) */
 
 static inline void
 hx_case(const char * tag, const void * desc, size_t len)
@@ -73,6 +74,7 @@ hx_viol(const char * sig, const char * fmt, ...)
 	hx_replay_json(rj, sizeof(rj), hx_cur_tag, hx_cur_desc, hx_cur_len);
 	vf_jsonstr(desc, sizeof(desc), hx_cur_desc, hx_cur_len > 60 ? 60 : hx_cur_len);
 	vf_violation(sig, rj, "[%s %s] %s", hx_cur_tag, desc, msg);
+	hx_viol_calls++;
 	if (vf_replay != NULL) {
 		printf("VIOLATION %s: [%s %s] %s\n", sig, hx_cur_tag, desc, msg);
 		hx_replay_failed = 1;
